@@ -246,22 +246,28 @@ class Ctx:
             raise NoVerdict("harness build failed (%s): %s" % (pkg, p.stdout.decode(errors="replace")[-3000:]))
         return out
 
-    def run(self, cmd, timeout=600, cwd=None, env=None, ok_codes=(0,), stdin=None, stdout_path=None):
+    def run(self, cmd, timeout=600, cwd=None, env=None, ok_codes=(0,), stdin=None, stdout_path=None, rlimit_as=None):
         e = goenv()
         e["VERIF_SEED"] = str(self.seed)
         e["VERIF_TIER"] = self.tier
         e["VERIF_SCRATCH"] = self.scratch
         if env:
             e.update(env)
+        pre = None
+        if rlimit_as:
+            import resource
+
+            def pre():
+                resource.setrlimit(resource.RLIMIT_AS, (rlimit_as, rlimit_as))
         try:
             if stdout_path:
                 with open(stdout_path, "w") as fo:
                     p = subprocess.run(cmd, cwd=cwd or self.scratch, env=e, stdout=fo, stderr=subprocess.PIPE,
-                                       timeout=timeout, stdin=stdin)
+                                       timeout=timeout, stdin=stdin, preexec_fn=pre)
                 out = ""
             else:
                 p = subprocess.run(cmd, cwd=cwd or self.scratch, env=e, stdout=subprocess.PIPE,
-                                   stderr=subprocess.PIPE, timeout=timeout, stdin=stdin)
+                                   stderr=subprocess.PIPE, timeout=timeout, stdin=stdin, preexec_fn=pre)
                 out = p.stdout.decode(errors="replace")
         except subprocess.TimeoutExpired:
             raise NoVerdict("harness timed out after %ds: %s" % (timeout, " ".join(cmd[:3])))
